@@ -52,10 +52,31 @@ def fault_plans(mcs, rng, tier, n_jobs, bs=None):
     """fault plans over the job space of one call: mcs = {pos: sorted_reactants or None}. With a batch size the
     call is cut into batches and the search jobs are keyed by the row's id WITHIN its batch, so a planned fault
     hits the same position of every batch: see _spread."""
+    if isinstance(bs, str):
+        # a Balancer with another id column: the hook keys every search job of the call "None:<condition>", so a
+        # planned search fault hits that condition of every reaction that reaches the MCS stage
+        rows = sorted(mcs)
+        plans = []
+        for c in CONDS:
+            plans.append(({"search_wait:None:%s" % c: "timeout"}, set(rows)))
+            for x in EXC[: 4 if tier == "quick" else len(EXC)]:
+                plans.append(({"search_thread:None:%s" % c: x}, set(rows)))
+        for r in [q for q in rows if mcs[q]]:
+            aff = {q for q in rows if mcs[q] == mcs[r]}
+            plans.append(({"graph:%s" % mcs[r]: "exception:MemoryError"}, aff))
+            plans.append(({"graph:%s" % mcs[r]: "timeout"}, aff))
+        return plans
     plans = _fault_plans(mcs, rng, tier, n_jobs if bs is None else 0)
     if bs is None:
         return plans
     return [_spread(plan, aff, mcs, bs) for plan, aff in plans]
+
+
+def _cfg(bs):
+    """third element of a combination: a batch size (int), another id column (str) or nothing"""
+    if isinstance(bs, str):
+        return {"batch_size": None, "id_col": bs}
+    return {"batch_size": bs}
 
 
 def _spread(plan, aff, mcs, bs):
@@ -153,28 +174,29 @@ def run(tier):
     jobs = []
     meta = []
     # (batch, worker count, batch size of the call)
-    combos = [(0, 1, None), (1, 4, None), (2, 1, None), (1, 1, 3)] if tier == "quick" else \
-        [(0, 1, None), (1, 1, None), (0, 4, None), (1, 16, None), (2, 1, None), (2, 4, None), (1, 1, 3), (2, 4, 2), (0, 1, 2)]
+    combos = [(0, 1, None), (1, 4, None), (2, 1, None), (1, 1, 3), (0, 1, "R-id")] if tier == "quick" else \
+        [(0, 1, None), (1, 1, None), (0, 4, None), (1, 16, None), (2, 1, None), (2, 4, None), (1, 1, 3), (2, 4, 2), (0, 1, 2),
+         (0, 1, "R-id"), (1, 4, "R-id")]
     # phase 1: fault-free reference per (batch, worker count) to learn which rows reach the MCS stage
     refs = {}
     for bi, nj, bs in combos:
         pf = os.path.join(wd, "ref_%d_%d_%s.json" % (bi, nj, bs))
         with open(pf, "w") as f:
-            json.dump({"runs": [{"name": "ref", "inputs": BATCHES[bi], "n_jobs": nj, "threshold": 0, "batch_size": bs}]}, f)
+            json.dump({"runs": [dict({"name": "ref", "inputs": BATCHES[bi], "n_jobs": nj, "threshold": 0}, **_cfg(bs))]}, f)
         lg = os.path.join(wd, "ref_%d_%d_%s.ndjson" % (bi, nj, bs))
         common.run_driver("drv_pipeline", [pf, lg])
         rows = [e for e in common.read_ndjson(lg) if e["ev"] == "row"]
         if len(rows) != len(BATCHES[bi]):
             raise common.MachineryError("reference run lost rows")
-        refs[(bi, nj, bs)] = (rows, _mcs_rows(lg + ".stages.ndjson", 1, bs))
+        refs[(bi, nj, bs)] = (rows, _mcs_rows(lg + ".stages.ndjson", 1, bs if isinstance(bs, int) else None))
     # phase 2: faulted runs, one driver process per combination
     for bi, nj, bs in combos:
         rows, mcs = refs[(bi, nj, bs)]
         plans = fault_plans(mcs, rng, tier, nj, bs)
-        runs = [{"name": "ref2", "inputs": BATCHES[bi], "n_jobs": nj, "threshold": 0, "batch_size": bs}]
+        runs = [dict({"name": "ref2", "inputs": BATCHES[bi], "n_jobs": nj, "threshold": 0}, **_cfg(bs))]
         for k, (plan, aff) in enumerate(plans):
-            runs.append({"name": "f%d" % k, "inputs": BATCHES[bi], "n_jobs": nj, "threshold": 0, "faults": plan,
-                         "batch_size": bs})
+            runs.append(dict({"name": "f%d" % k, "inputs": BATCHES[bi], "n_jobs": nj, "threshold": 0, "faults": plan},
+                             **_cfg(bs)))
         pf = os.path.join(wd, "plan_%d_%d_%s.json" % (bi, nj, bs))
         with open(pf, "w") as f:
             json.dump({"runs": runs}, f)
@@ -187,7 +209,7 @@ def run(tier):
     for bi, nj, bs, plans, lg in meta:
         rows, mcs = refs[(bi, nj, bs)]
         nid += 1
-        events.append({"ev": "ref", "id": nid, "batch": bi, "n_jobs": nj, "bs": bs or 0, "rows": [_row(e) for e in rows]})
+        events.append({"ev": "ref", "id": nid, "batch": bi, "n_jobs": nj, "bs": bs if isinstance(bs, int) else (-1 if bs else 0), "rows": [_row(e) for e in rows]})
         by_run, raised = {}, {}
         for e in common.read_ndjson(lg):
             if e["ev"] == "row":
@@ -196,7 +218,7 @@ def run(tier):
                 raised[e["run"]] = e["raised"]
         # run 1 repeats the fault-free run in the same process: it must equal the reference
         nid += 1
-        events.append({"ev": "faulted", "id": nid, "batch": bi, "n_jobs": nj, "bs": bs or 0, "plan": {}, "affected": [],
+        events.append({"ev": "faulted", "id": nid, "batch": bi, "n_jobs": nj, "bs": bs if isinstance(bs, int) else (-1 if bs else 0), "plan": {}, "affected": [],
                        "raised": raised.get(1, ""), "rows": [_row(e) for e in by_run.get(1, [])]})
         ref_slow = {p for p, e in enumerate(rows) if "timeout" in str(e["issue"]).lower()}
         for k, (plan, aff) in enumerate(plans):
@@ -207,7 +229,7 @@ def run(tier):
             # comparable: it counts as affected (the containment clauses are still evaluated on it)
             slow = {p for p, e in enumerate(rr) if p not in aff and "timeout" in str(e["issue"]).lower()} | (ref_slow - set(aff))
             wallclock += len(slow)
-            events.append({"ev": "faulted", "id": nid, "batch": bi, "n_jobs": nj, "bs": bs or 0, "plan": plan,
+            events.append({"ev": "faulted", "id": nid, "batch": bi, "n_jobs": nj, "bs": bs if isinstance(bs, int) else (-1 if bs else 0), "plan": plan,
                            "affected": sorted(p + 1 for p in set(aff) | slow), "raised": raised.get(k + 2, ""),
                            "rows": [_row(e) for e in rr]})
     log = os.path.join(wd, "c11.ndjson")
@@ -223,7 +245,7 @@ def run(tier):
             if r["ev"] == "ref" and r["batch"] == e["batch"] and r["n_jobs"] == e["n_jobs"] and r["bs"] == e["bs"] \
                     and 1 <= pos <= len(r["rows"]):
                 refrow = {k: v for k, v in r["rows"][pos - 1].items() if k != "out"}
-        sig = "batch=%d n_jobs=%d%s plan=%s row=%s" % (e["batch"], e["n_jobs"], " bs=%d" % e["bs"] if e["bs"] else "",
+        sig = "batch=%d n_jobs=%d%s plan=%s row=%s" % (e["batch"], e["n_jobs"], (" id_col=R-id" if e["bs"] == -1 else " bs=%d" % e["bs"]) if e["bs"] else "",
                                                       json.dumps(e["plan"], sort_keys=True), x.get("input"))
         kinds = sorted({("zombie" if "gate:" in str(v) else str(v)) if not k.startswith("open_at") else "zombie"
                         for k, v in e["plan"].items()})
@@ -231,7 +253,7 @@ def run(tier):
                  detail={"plan": e["plan"], "affected_positions": e["affected"], "n_jobs": e["n_jobs"],
                          "row": {k: v for k, v in x.items() if k != "out"}, "reference_row": refrow,
                          "raised": e["raised"]},
-                 replay={"inputs": BATCHES[e["batch"]], "n_jobs": e["n_jobs"], "plan": e["plan"], "batch_size": e["bs"] or None,
+                 replay={"inputs": BATCHES[e["batch"]], "n_jobs": e["n_jobs"], "plan": e["plan"], "batch_size": e["bs"] if e["bs"] > 0 else None, "id_col": "R-id" if e["bs"] == -1 else "id",
                          "affected": e["affected"]})
     rep.extra["rows_excluded_for_wallclock_timeouts"] = wallclock
     zomb = sum(1 for e in events if e["ev"] == "faulted" and any(k.startswith("open_at") for k in e["plan"]))
@@ -265,9 +287,9 @@ def replay(path):
     pf = os.path.join(wd, "plan.json")
     with open(pf, "w") as f:
         json.dump({"runs": [{"name": "ref", "inputs": rp["inputs"], "n_jobs": rp["n_jobs"], "threshold": 0,
-                             "batch_size": rp.get("batch_size")},
+                             "batch_size": rp.get("batch_size"), "id_col": rp.get("id_col", "id")},
                             {"name": "f", "inputs": rp["inputs"], "n_jobs": rp["n_jobs"], "threshold": 0,
-                             "faults": rp["plan"], "batch_size": rp.get("batch_size")}]}, f)
+                             "faults": rp["plan"], "batch_size": rp.get("batch_size"), "id_col": rp.get("id_col", "id")}]}, f)
     lg = os.path.join(wd, "r.ndjson")
     common.run_driver("drv_pipeline", [pf, lg])
     by_run, raised = {}, {}
